@@ -1057,7 +1057,13 @@ func (c *Ctx) redisPollBounded(r *redisRoles, rule string) {
 			return
 		}
 		n++
-		c.Decide(rule, fn, "poll interval bounded above", in, bounded(call.Call.Args[0], nil, nil, 0, map[ssa.Value]bool{}),
+		okB := bounded(call.Call.Args[0], nil, nil, 0, map[ssa.Value]bool{})
+		if !okB {
+			// the pause kept in a small state object (constructor, step method, fields): the same question asked through
+			// calls, parameters and fields (y_b_bound.go)
+			okB = newUBYB(r.all).bounded(call.Call.Args[0], call.Block(), 0, map[ssa.Value]bool{})
+		}
+		c.Decide(rule, fn, "poll interval bounded above", in, okB,
 			"the pause between two polls has no constant upper bound on some path (growing back-off without cap): a waiter that has been blocked for T notices a change up to T late")
 	})
 	if n == 0 {
@@ -1146,6 +1152,13 @@ func (r *redisRoles) batchWithoutExpiry(at ssa.Instruction, cell ssa.Value) bool
 				continue
 			}
 			if ef.Outcome == (ef.Test.Op == token.EQL) {
+				return true
+			}
+		}
+		// the same pre-pass spelled as an accumulating flag in a three-clause loop (y_b_redis.go)
+		if acc := accumAllYB(ff.Cond); acc != nil && ff.True && !acc.Loop[at.Block()] && ir.Resolve(acc.Slice) == ir.Resolve(from) {
+			t := acc.Test
+			if t.Op == token.EQL && ((ir.LoadedField(t.X) == r.recExpires && ir.IsNilConst(t.Y)) || (ir.LoadedField(t.Y) == r.recExpires && ir.IsNilConst(t.X))) {
 				return true
 			}
 		}
